@@ -107,6 +107,7 @@ const (
 	PolicySticky // keep running the same task with probability 3/4
 	PolicyPCT    // random priorities, a few priority change points
 	PolicyRoundRobin
+	PolicyStall // one task (a "slow node") runs only when nothing else is runnable; the others at random
 	NumPolicies
 )
 
@@ -121,6 +122,10 @@ type Config struct {
 	Rand         *Tape // source for the redirected math/rand calls
 	UniqueKey    []byte
 	Stdio        *Stdio
+	// StallSites: with PolicyStall, the tasks that are parked at one of these sites
+	// ("file.go:line") are the slow ones instead of one task chosen by id (directed
+	// exploration: "the goroutine that has just passed this point is descheduled")
+	StallSites []string
 }
 
 type Sim struct {
@@ -137,20 +142,21 @@ type Sim struct {
 	last    int
 
 	// measured
-	Steps        int
-	ChoicePoints int // steps at which >= 2 tasks were runnable
-	MaxRunnable  int
-	TraceHash    uint64
-	Trace        [traceKeep]TraceEntry
-	NTrace       int
-	Tasks        int
-	Panic        interface{}
+	Steps          int
+	ChoicePoints   int // steps at which >= 2 tasks were runnable
+	MaxRunnable    int
+	TraceHash      uint64
+	Trace          [traceKeep]TraceEntry
+	NTrace         int
+	Tasks          int
+	Panic          interface{}
 	BudgetExceeded bool
-	SimTime      time.Duration
-	pctChange    [4]int
-	salt         uint32
-	events       []Event
-	nevents      int
+	SimTime        time.Duration
+	pctChange      [4]int
+	stallID        int
+	salt           uint32
+	events         []Event
+	nevents        int
 
 	// trigger: the n-th Yield of a given kind releases the tasks parked in WaitTrigger
 	// and makes the scheduler run one of them next
@@ -188,6 +194,7 @@ func Progress() int64 { return atomic.LoadInt64(&progress) }
 func act() *Sim { return active }
 
 // Active reports whether a simulation is running (false = pass-through).
+//
 //go:norace
 func Active() bool { return active != nil }
 
@@ -457,6 +464,11 @@ func Run(t *testing.T, cfg Config, root func()) *Sim {
 				}
 				s.salt = uint32(cfg.Sched.Next(1 << 30))
 			}
+			if cfg.Policy == PolicyStall {
+				// the victim is the k-th task to register; small k = a client or an early
+				// goroutine, larger k = something spawned later (a handler, a worker)
+				s.stallID = cfg.Sched.Next(8) * (1 + cfg.Sched.Next(12))
+			}
 			if cfg.Stdio != nil {
 				cfg.Stdio.init()
 			}
@@ -573,6 +585,48 @@ func (s *Sim) pick(n int) int {
 			}
 		}
 		return best
+	case PolicyStall:
+		// choose at random among the tasks other than the stalled one
+		others := 0
+		victim := -1
+		nsites := len(s.cfg.StallSites)
+		for i := 0; i < n; i++ {
+			slow := s.parked[i].id == s.stallID
+			if nsites > 0 {
+				slow = false
+				for j := 0; j < nsites; j++ {
+					if s.parked[i].site == s.cfg.StallSites[j] {
+						slow = true
+					}
+				}
+			}
+			if slow {
+				victim = i
+				s.parked[i].prio = 1
+			} else {
+				s.parked[i].prio = 0
+				others++
+			}
+		}
+		if others == 0 {
+			return victim
+		}
+		k := s.cfg.Sched.Next(others)
+		// k-th smallest id among the others
+		idx := -1
+		for rank := 0; rank <= k; rank++ {
+			best := -1
+			for i := 0; i < n; i++ {
+				if s.parked[i].prio == 1 || (idx >= 0 && s.parked[i].id <= s.parked[idx].id) {
+					continue
+				}
+				if best < 0 || s.parked[i].id < s.parked[best].id {
+					best = i
+				}
+			}
+			idx = best
+		}
+		return idx
 	case PolicyRoundRobin:
 		// smallest id greater than last, else lowest
 		best := -1
@@ -677,6 +731,7 @@ func resetPerRun() {
 
 // AsCond reports whether p points at a *sync.Cond (or a sync.Cond value) while a
 // simulation is active. Outside a simulation it always says no, so the real methods run.
+//
 //go:norace
 func AsCond(p interface{}) (*sync.Cond, bool) {
 	if active == nil {
